@@ -28,7 +28,7 @@ func hVLQDigit(v int) string {
 func vK07hSectionMappings() {
 	nSec := hLen(2, vParam("SECTIONS", 2))
 	maxSegs := vParam("SEGS", 1)
-	genDeltas := []int{0, 1}
+	genDeltas := []int{0, 1}[:vParam("GENS", 2)]
 	lineDeltas := []int{0, 1, -1}
 	colDeltas := []int{0, 2, -1}
 	type want struct{ gl, gc, src, ol, oc int }
